@@ -37,6 +37,8 @@ type CopyCase struct {
 	Progress   string          `json:"prog"`   // nil, buffered, unbuffered
 	CancelAt   int             `json:"cancel"` // 0 = none; k = cancel during k-th GetLog
 	SegSize    int             `json:"seg"`
+	SrcErr     string          `json:"srcerr,omitempty"` // "", first, last, get: the source fails that call
+	DstErrAt   int             `json:"dsterr,omitempty"` // k>0: the destination's k-th StoreLogs fails
 }
 
 var storeKinds = []string{"walsim", "walsim", "walreal", "inmem", "bolt1", "bolt2"}
@@ -76,6 +78,14 @@ func genCopyCase(t *rapid.T) CopyCase {
 		c.CancelAt = rapid.IntRange(1, n).Draw(t, "cancelAt")
 	}
 	c.SegSize = rapid.SampledFrom([]int{128, 4096, 1 << 20}).Draw(t, "seg")
+	if c.CancelAt == 0 {
+		switch rapid.IntRange(0, 9).Draw(t, "storeErr") {
+		case 0:
+			c.SrcErr = rapid.SampledFrom([]string{"first", "last", "get"}).Draw(t, "srcErr")
+		case 1:
+			c.DstErrAt = rapid.IntRange(1, 3).Draw(t, "dstErrAt")
+		}
+	}
 	return c
 }
 
@@ -150,6 +160,49 @@ type cancelSrc struct {
 	k      int
 	n      int
 	cancel context.CancelFunc
+}
+
+var errInjected = errors.New("verif: injected store error")
+
+// failSrc fails one kind of call of the source store.
+type failSrc struct {
+	raft.LogStore
+	what string
+	gets int
+}
+
+func (f *failSrc) FirstIndex() (uint64, error) {
+	if f.what == "first" {
+		return 0, errInjected
+	}
+	return f.LogStore.FirstIndex()
+}
+func (f *failSrc) LastIndex() (uint64, error) {
+	if f.what == "last" {
+		return 0, errInjected
+	}
+	return f.LogStore.LastIndex()
+}
+func (f *failSrc) GetLog(i uint64, l *raft.Log) error {
+	f.gets++
+	if f.what == "get" && f.gets == 2 {
+		return errInjected
+	}
+	return f.LogStore.GetLog(i, l)
+}
+
+// failDst fails the k-th StoreLogs of the destination.
+type failDst struct {
+	raft.LogStore
+	k, n int
+}
+
+func (f *failDst) StoreLogs(l []*raft.Log) error {
+	f.n++
+	if f.n == f.k {
+		return errInjected
+	}
+	return f.LogStore.StoreLogs(l)
 }
 
 func (c *cancelSrc) GetLog(i uint64, l *raft.Log) error {
@@ -228,29 +281,38 @@ func runCopy(c CopyCase) (res common.Result) {
 	if c.CancelAt > 0 {
 		from = &cancelSrc{LogStore: src, k: c.CancelAt, cancel: cancel}
 	}
+	var to raft.LogStore = dst
+	if c.SrcErr != "" {
+		from = &failSrc{LogStore: src, what: c.SrcErr}
+	}
+	fd := &failDst{LogStore: dst, k: c.DstErrAt}
+	if c.DstErrAt > 0 {
+		to = fd
+	}
 	var progress chan string
-	drained := make(chan int, 1)
 	switch c.Progress {
 	case "buffered":
 		progress = make(chan string, 4096)
 	case "unbuffered":
 		progress = make(chan string)
 	}
-	if c.Progress == "buffered" {
-		go func() {
-			n := 0
-			for range progress {
-				n++
-			}
-			drained <- n
-		}()
-	}
-	cerr := migrate.CopyLogs(ctx, dst, from, c.BatchBytes, progress)
+	cerr := migrate.CopyLogs(ctx, to, from, c.BatchBytes, progress)
 
 	// progress channel must be closed on return
 	if progress != nil {
 		if c.Progress == "buffered" {
-			<-drained // the drainer only finishes when the channel is closed; a leak shows as a test timeout with this goroutine's stack
+			// CopyLogs has returned, so nothing sends any more: whatever is buffered is drained
+			// without blocking, and then the channel must report closed - decided on the spot,
+			// never by waiting (an unclosed channel used to show only as a timeout)
+			for open := true; open; {
+				select {
+				case _, ok := <-progress:
+					open = ok
+				default:
+					res.Fail = common.Failf("progress-not-closed", "progress channel (buffered, drained after return) not closed when CopyLogs returned (err=%v): a consumer ranging over it never finishes", cerr)
+					return
+				}
+			}
 		} else {
 			select {
 			case _, ok := <-progress:
@@ -273,7 +335,21 @@ func runCopy(c CopyCase) (res common.Result) {
 	}
 	n := len(c.Entries)
 	cancelled := c.CancelAt > 0 && c.CancelAt < n // cancelling during the last GetLog may or may not be noticed
-	if c.CancelAt == 0 {
+	fs, _ := from.(*failSrc)
+	storeFailed := c.SrcErr == "first" || c.SrcErr == "last" || (fs != nil && c.SrcErr == "get" && fs.gets >= 2) || (c.DstErrAt > 0 && fd.n >= fd.k)
+	if storeFailed {
+		// a store error is passed on (never swallowed), and what was copied so far is a prefix
+		res.Classes = append(res.Classes, "store-error:"+c.SrcErr+fmt.Sprint(c.DstErrAt))
+		res.NonTrivial = true
+		if cerr == nil {
+			res.Fail = common.Failf("store-error-swallowed", "the %s store failed a call (srcerr=%q dsterr=%d) but CopyLogs returned nil", map[bool]string{true: "source", false: "destination"}[c.SrcErr != ""], c.SrcErr, c.DstErrAt)
+			return
+		}
+		if dLast != 0 && (dFirst != sFirst || dLast > sLast) {
+			res.Fail = common.Failf("error-not-prefix", "after a store error destination [%d,%d] is not a prefix of source [%d,%d]", dFirst, dLast, sFirst, sLast)
+			return
+		}
+	} else if c.CancelAt == 0 {
 		if cerr != nil {
 			sig := "copy-err"
 			if n == 0 {
